@@ -31,7 +31,9 @@ SoftBases == << <<0>>, <<1, 2>>, <<-3, 0, 3>>, <<2, 2, 2, 2>>, <<-1, 4, 0, 2, -2
                 <<50, 0, 1, 2, 3, 1, 0, 2>>, <<0, 0, 0, 90>> >>
 SoftShifts == {0, 8, -1024, 4096}
 Huge == << [k |-> "max", s |-> 1], [k |-> "max", s |-> -1], [k |-> "pow2", s |-> 1, e |-> 100], [k |-> "pow2", s |-> -1, e |-> 100],
-           [k |-> "k8", v |-> 8], [k |-> "zero", s |-> 1] >>
+           [k |-> "k8", v |-> 8], [k |-> "zero", s |-> 1],
+           \* three quarters of the largest finite value: DIFFERENT finite logits far beyond half the range, on the same side
+           [k |-> "max34", s |-> 1], [k |-> "max34", s |-> -1] >>
 
 Init ==
   /\ rec = <<>>
@@ -39,8 +41,8 @@ Init ==
            pick = [kind |-> "elementwise", act |-> a, dir |-> dir, rank |-> rank, class |-> c]
      \/ \E n \in SoftLens, sh \in SoftShifts, rank \in {1, 3} :
            pick = [kind |-> "softmax", base |-> SoftBases[n], shift |-> sh, rank |-> rank]
-     \/ \E n \in SoftLens, rot \in 0..5 :
-           pick = [kind |-> "softmax-huge", entries |-> [i \in 1..n |-> Huge[((i + rot) % 6) + 1]]]
+     \/ \E n \in SoftLens, rot \in 0..7 :
+           pick = [kind |-> "softmax-huge", entries |-> [i \in 1..n |-> Huge[((i + rot) % 8) + 1]]]
 
 Compute ==
   /\ rec = <<>> /\ UNCHANGED pick
